@@ -16,6 +16,10 @@ erased item.  Op vocabulary:
 Every op answers one line: the return value, then `iter()`, `first()`, `last()`, `is_empty()`
 and `find` of the probe keys 0..5 (whole-item convention: `(k, 10k+1)` and `(k, None)`),
 all evaluated on the state after the op.
+
+`conv pair digest` / `conv whole digest` (large deques): the line is reduced to the return
+value, `first()`, `last()`, `is_empty()`, and `iter` returns `#<count>:<FNV-1a 64 of the item
+list as text>` (see harness/src/fam_sorted.rs).
 -/
 namespace Woodpile.Driver.SortedDequeFam
 open Woodpile.Driver Woodpile.SortedDeque
@@ -55,6 +59,20 @@ def fmtRet : Ret Item → String
   | .item o => fmtOpt o
   | .flag b => if b then "1" else "0"
   | .items l => fmtList l
+
+/-- FNV-1a, 64 bit, over the (ASCII) characters of a string; same as `fnv64` in the harness. -/
+def fnvStr (s : String) : UInt64 :=
+  s.foldl (fun h c => (h ^^^ c.toNat.toUInt64) * 0x100000001b3) 0xcbf29ce484222325
+
+def hex64 (x : UInt64) : String :=
+  String.ofList ((List.range 16).map (fun i => hexChar ((x >>> (UInt64.ofNat (60 - 4 * i))).toNat % 16)))
+
+def fmtListDigest (l : List Item) : String :=
+  "#" ++ toString l.length ++ ":" ++ hex64 (fnvStr (fmtList l))
+
+def fmtRetDigest : Ret Item → String
+  | .items l => fmtListDigest l
+  | r => fmtRet r
 
 def parseVal (s : String) : Option (Option Nat) :=
   if s = "-" then some none else s.toNat?.map some
@@ -101,27 +119,30 @@ def parseCmd (cv : Conv) : List String → Option (Cmd cv.κ)
   | _ => none
 
 /-- `none` = panic. -/
-def exec (cv : Conv) (s : SortedDeque Item) : Cmd cv.κ → Option (String × SortedDeque Item)
+def exec (cv : Conv) (digest : Bool) (s : SortedDeque Item) : Cmd cv.κ → Option (String × SortedDeque Item)
   | .new l => some ("()", SortedDeque.new l)
-  | .op o => (step cv.c s o).map fun (r, s') => (fmtRet r, s')
+  | .op o => (step cv.c s o).map fun (r, s') => (if digest then fmtRetDigest r else fmtRet r, s')
 
 /-- The observation line on the state after the op (`none` = one of the reads panicked). -/
-def observe (cv : Conv) (r : String) (s : SortedDeque Item) : Option String := do
-  let it ← s.iter cv.c
+def observe (cv : Conv) (digest : Bool) (r : String) (s : SortedDeque Item) : Option String := do
   let f ← s.first cv.c
   let l ← s.last cv.c
   let e ← s.isEmpty cv.c
+  if digest then
+    return r ++ " first=" ++ fmtOpt f ++ " last=" ++ fmtOpt l ++ " empty=" ++ (if e then "1" else "0")
+  let it ← s.iter cv.c
   let ps ← cv.probes.mapM (fun k => s.find cv.c k)
   pure (r ++ " iter=" ++ fmtList it ++ " first=" ++ fmtOpt f ++ " last=" ++ fmtOpt l
     ++ " empty=" ++ (if e then "1" else "0") ++ " probe=" ++ ",".intercalate (ps.map fmtOpt))
 
 structure St where
   whole : Bool
+  digest : Bool := false
   cur : Option (SortedDeque Item)
   snaps : List (SortedDeque Item)
 
-def initSt (whole : Bool) : St :=
-  { whole := whole, cur := some SortedDeque.empty, snaps := [SortedDeque.empty] }
+def initSt (whole : Bool) (digest : Bool := false) : St :=
+  { whole := whole, digest := digest, cur := some SortedDeque.empty, snaps := [SortedDeque.empty] }
 
 def stepWith (cv : Conv) (st : St) (ws : List String) : St × List String :=
   match ws with
@@ -131,10 +152,10 @@ def stepWith (cv : Conv) (st : St) (ws : List String) : St × List String :=
       match st.snaps[k]? with
       | none => (st, ["nosnap"])
       | some s0 =>
-        match exec cv s0 c with
+        match exec cv st.digest s0 c with
         | none => ({ st with cur := none, snaps := st.snaps.take (k + 1) }, ["panic"])
         | some (r, s') =>
-          match observe cv r s' with
+          match observe cv st.digest r s' with
           | none => ({ st with cur := none, snaps := st.snaps.take (k + 1) }, ["panic"])
           | some line => ({ st with cur := some s', snaps := st.snaps.take (k + 1) ++ [s'] }, [line])
     | _, _ => (st, ["bad-op"])
@@ -145,10 +166,10 @@ def stepWith (cv : Conv) (st : St) (ws : List String) : St × List String :=
       match parseCmd cv ws with
       | none => (st, ["bad-op"])
       | some c =>
-        match exec cv s c with
+        match exec cv st.digest s c with
         | none => ({ st with cur := none }, ["panic"])
         | some (r, s') =>
-          match observe cv r s' with
+          match observe cv st.digest r s' with
           | none => ({ st with cur := none }, ["panic"])
           | some line => ({ st with cur := some s' }, [line])
 
@@ -156,6 +177,8 @@ def stepLine (st : St) (ws : List String) : St × List String :=
   match ws with
   | ["conv", "pair"] => (initSt false, ["conv pair"])
   | ["conv", "whole"] => (initSt true, ["conv whole"])
+  | ["conv", "pair", "digest"] => (initSt false true, ["conv pair digest"])
+  | ["conv", "whole", "digest"] => (initSt true true, ["conv whole digest"])
   | _ => if st.whole then stepWith wholeConv st ws else stepWith pairConv st ws
 
 def family : Family := { σ := St, init := initSt false, step := stepLine }
